@@ -14,7 +14,7 @@ from ..model import AnalysisError, src
 from ..report import Report, key_of
 from ..terms import pretty
 from ..types import Ctx
-from .common import TRUSTED_BASE, cfg_nodes_for, inl, is_run_edge, where
+from .common import TRUSTED_BASE, cfg_nodes_for, inl, is_run_edge, subst_single_assign, where
 from .purity import check_stateless
 
 CONSTRUCTION = ['Chain.__init__', 'Chain._prepare', 'MultiChain.__init__', 'MultiChain._prepare', 'Config.chain']
@@ -128,22 +128,33 @@ def run(A, R: Report, thorough: bool):
                 R.ok('R04.2', 'Task.data', 'paths through load are RUN-free', witness=[f'load at L{ln.lineno}', f'{len(through)} CFG nodes on paths through it'], where=where(fdata, ld))
 
     R.rule('R04.3', 'memo test on the stored data object dominates load and run, and its true branch only returns the stored object', floor=1)
+    def memo_expr(e):
+        """the stored data object: self._data, getattr(self, '_data', None), or a single-assignment local holding one of them"""
+        e = subst_single_assign(A, fdata, e)
+        if src(e) == 'self._data':
+            return 'attr'
+        if isinstance(e, ast.Call) and src(e.func) == 'getattr' and len(e.args) == 3 and src(e.args[0]) == 'self' and src(e.args[1]) == "'_data'" \
+                and isinstance(e.args[2], ast.Constant) and e.args[2].value is None:
+            return 'getattr'
+        return None
+
     memo_tests = []
     for n in cfg.nodes.values():
-        if n.kind == 'test' and isinstance(n.ast, ast.Compare) and len(n.ast.ops) == 1 and isinstance(n.ast.ops[0], ast.IsNot) \
-                and isinstance(n.ast.comparators[0], ast.Constant) and n.ast.comparators[0].value is None and src(n.ast.left) == 'self._data':
+        if n.kind == 'test' and n.owner is fdata.node and isinstance(n.ast, ast.Compare) and len(n.ast.ops) == 1 and isinstance(n.ast.ops[0], (ast.IsNot, ast.Is)) \
+                and isinstance(n.ast.comparators[0], ast.Constant) and n.ast.comparators[0].value is None and memo_expr(n.ast.left):
             memo_tests.append(n)
-    # equivalent idiom: `if self._data is None: ... else: return` or truthiness `if self._data:` directly returning
     if not memo_tests:
         for n in cfg.nodes.values():
-            if n.kind == 'test' and src(n.ast) in ('self._data', 'self._data is None'):
+            if n.kind == 'test' and n.owner is fdata.node and memo_expr(n.ast):
                 memo_tests.append(n)
                 break
+    memo_tests.sort(key=lambda n: n.id)
     if not memo_tests:
         R.undecided('R04.3', 'Task.data', 'memo test idiom not recognised', where=where(fdata))
     else:
         m = memo_tests[0]
-        pos_label = 'F' if src(m.ast) == 'self._data is None' else 'T'
+        pos_label = 'F' if isinstance(m.ast, ast.Compare) and isinstance(m.ast.ops[0], ast.Is) else 'T'
+        safe_missing = isinstance(m.ast, ast.Compare) and memo_expr(m.ast.left) == 'getattr'
         targets = [cn for c in loads + runs for cn in cfg_nodes_for(cfg, c)]
         # every path from entry to load / run takes the "nothing memoised" outcome of the memo test, or the
         # negative outcome of a defensive hasattr(self, '_data') test (the attribute does not exist yet)
@@ -152,7 +163,7 @@ def run(A, R: Report, thorough: bool):
             (n.ast is m.ast and n.label == neg_label)
             or (isinstance(n.ast, ast.Call) and src(n.ast.func) == 'hasattr' and len(n.ast.args) == 2 and src(n.ast.args[1]) == "'_data'" and n.label == 'F'))]
         dom_ok = not cfg.path_exists([cfg.entry.id], [t.id for t in targets], avoid=gates)
-        # true branch: everything reachable from the T edge before exit is `return self._data`
+        # true branch: everything reachable from the T edge before exit is `return <the stored object>`
         t_edges = [v for v in cfg.g.successors(m.id) if cfg.nodes[v].kind == 'edge' and cfg.nodes[v].label == pos_label]
         branch_ok = bool(t_edges)
         for te in t_edges:
@@ -160,10 +171,13 @@ def run(A, R: Report, thorough: bool):
                 nd = cfg.nodes[d]
                 if nd.kind in ('exit',):
                     continue
-                if not (nd.kind == 'stmt' and isinstance(nd.ast, ast.Return) and nd.ast.value is not None and src(nd.ast.value) == 'self._data'):
+                if not (nd.kind == 'stmt' and isinstance(nd.ast, ast.Return) and nd.ast.value is not None and memo_expr(nd.ast.value)):
                     branch_ok = False
-        rets_ok = all(isinstance(n.ast, ast.Return) and n.ast.value is not None and src(n.ast.value) == 'self._data'
-                      for n in cfg.nodes.values() if n.kind == 'stmt' and isinstance(n.ast, ast.Return))
+        # returns of Task.data itself (returns inside inlined helpers only continue after the call statement)
+        own_rets = [n for n in cfg.nodes.values() if n.kind == 'stmt' and isinstance(n.ast, ast.Return) and n.owner is fdata.node]
+        rets_ok = bool(own_rets) and all(n.ast.value is not None and src(subst_single_assign(A, fdata, n.ast.value)) == 'self._data' or
+                                         (n.ast.value is not None and memo_expr(n.ast.value) and any(d == n.id for te in t_edges for d in nx.descendants(cfg.g, te)))
+                                         for n in own_rets)
         R.check(dom_ok and branch_ok and rets_ok, 'R04.3', 'Task.data', key_of('memo', dom_ok, branch_ok, rets_ok),
                 'memo short-circuit dominates load and run; all exits return the stored object',
                 f'memo broken: dominates={dom_ok} true-branch-only-returns={branch_ok} all-returns-stored-object={rets_ok}',
@@ -200,13 +214,13 @@ def run(A, R: Report, thorough: bool):
 
     # ---- R04.7 the in-memory result is dropped only by force(), reset_data() and the failure handler
     R.rule('R04.7', 'self._data is reset to None only in __init__, force, reset_data and the failure handler of data', floor=3)
-    allowed = {'__init__', 'force', 'reset_data', 'data'}
+    allowed = {'__init__', 'force', 'reset_data', 'data'} | {o.name for _, o in A.nodes(fdata)}
     for c in task.all_subclasses():
         for name, f in c.methods.items():
             for node in A.typer.own_nodes(f):
                 if isinstance(node, ast.Assign) and any(src(t) == 'self._data' for t in node.targets) and isinstance(node.value, ast.Constant) and node.value.value is None:
                     ok = name in allowed
-                    if ok and name == 'data':
+                    if ok and name not in ('__init__', 'force', 'reset_data'):
                         cfg2 = A.cfg(f)
                         ok = all(cn.id in cfg2.in_handler for cn in cfg_nodes_for(cfg2, node))
                     R.check(ok, 'R04.7', f'{f.short}: `self._data = None`', key_of('memo-dropped', f.short), 'legitimate reset site',
